@@ -22,6 +22,7 @@ import (
 
 	"github.com/codenotary/immudb/embedded/sql"
 	"github.com/codenotary/immudb/pkg/api/schema"
+	"github.com/codenotary/immudb/pkg/database"
 	"github.com/codenotary/immudb/pkg/server/sessions"
 	"github.com/golang/protobuf/ptypes/empty"
 )
@@ -123,6 +124,10 @@ func (s *ImmuServer) TxSQLExec(ctx context.Context, request *schema.SQLExecReque
 		return new(empty.Empty), err
 	}
 
+	if err := s.checkTxDatabase(ctx, tx.Database()); err != nil {
+		return new(empty.Empty), err
+	}
+
 	res := tx.SQLExec(ctx, request)
 
 	if tx.IsClosed() {
@@ -145,6 +150,10 @@ func (s *ImmuServer) TxSQLQuery(req *schema.SQLQueryRequest, srv schema.ImmuServ
 		return err
 	}
 
+	if err := s.checkTxDatabase(srv.Context(), tx.Database()); err != nil {
+		return err
+	}
+
 	reader, err := tx.SQLQuery(srv.Context(), req)
 	if err != nil {
 		return err
@@ -152,4 +161,19 @@ func (s *ImmuServer) TxSQLQuery(req *schema.SQLQueryRequest, srv schema.ImmuServ
 	defer reader.Close()
 
 	return s.streamRows(srv.Context(), reader, tx.Database().MaxResultSize(), srv.Send)
+}
+
+// checkTxDatabase: statements are authorized against the database the session is currently using,
+// so a transaction can only be used while the session is still on the database it was created on
+func (s *ImmuServer) checkTxDatabase(ctx context.Context, txDB database.DB) error {
+	sess, err := s.SessManager.GetSessionFromContext(ctx)
+	if err != nil {
+		return err
+	}
+
+	if sess.GetDatabase().GetName() != txDB.GetName() {
+		return ErrTxDatabaseMismatch
+	}
+
+	return nil
 }
